@@ -367,7 +367,7 @@ impl World {
         let (clients, metrics, handle) = (self.clients.clone(), self.metrics.clone(), self.rt.handle().clone());
         let th = std::thread::spawn(move || {
             let _g = handle.enter();
-            clients.register(config, metrics);
+            config.register(&clients, metrics);
         });
         let mut h = ConnH {
             cid,
